@@ -9,7 +9,7 @@
     [ctx_wf C]: map keys agree with the id fields stored in the values (DB invariant). *)
 From stdpp Require Import gmap list numbers.
 From Drummer.Model Require Import DB Sched SchedRun.
-From Drummer.Proofs Require Import SchedProofs SchedTotal SchedExamples.
+From Drummer.Proofs Require Import SchedProofs SchedTotal SchedExamples DBHostsProofs.
 Local Open Scope N_scope.
 
 (** 1. A DELETE removes exactly one replica, a member of the view classified failed (not
@@ -47,6 +47,25 @@ Theorem C02_add_no_colocation : ∀ P C b q c n,
   c_view C !! q_shard q = Some c → n ∈ mvals (s_reps c) → q_addrs q ≠ [r_addr n].
 Proof. exact sched_add_no_colocation. Qed.
 Print Assumptions C02_add_no_colocation.
+
+(** 2''. The two hypotheses are invariants of the replicated DB: in EVERY DB state reachable by ANY
+         command sequence the scheduler context is well formed and [hosts_synced] holds (syncShardInfo
+         runs after the NodeHost record was overwritten with the report's own shard list, on every report).
+         Hence, closed over the DB: whatever batch the scheduler may compute from a reachable DB state, the
+         target of an ADD is not the NodeHost of any member of that shard's view. *)
+Theorem C02_db_context_wf : ∀ P cs d, run P cs = Live d → ctx_wf (ctx_of_db d).
+Proof. exact run_ctx_wf. Qed.
+Print Assumptions C02_db_context_wf.
+
+Theorem C02_db_hosts_synced : ∀ P cs d, run P cs = Live d → hosts_synced (ctx_of_db d).
+Proof. exact run_hosts_synced. Qed.
+Print Assumptions C02_db_hosts_synced.
+
+Theorem C02_no_colocation_reachable : ∀ P cs d b q c n,
+  run P cs = Live d → allowed P (ctx_of_db d) (OBatch b) = true → q ∈ b → is_add q = true →
+  d_view d !! q_shard q = Some c → n ∈ mvals (s_reps c) → q_addrs q ≠ [r_addr n].
+Proof. exact reachable_add_no_colocation. Qed.
+Print Assumptions C02_no_colocation_reachable.
 
 (** 3. Every ADD / DELETE carries the membership version of the view it was computed
        from and is addressed to the NodeHost of a healthy member. *)
